@@ -666,8 +666,22 @@ struct Sess {
     else if (mk != wk || mn != wn) cx.fail(O_PARAM, "limits_differ_from_advertised", "MAX_K/MAX_N = " + std::to_string(mk) + "/" + std::to_string(mn) + ", the documented limits are " + std::to_string(wk) + "/" + std::to_string(wn));
     tr("limits", ((uint64_t)mk << 32) | mn);
   }
+  // the answer belongs to the parameters: a session asked again later (after submissions, after decoding) must repeat it,
+  // since an encoder with equal parameters - which never changes state that way - has to agree with it at any time
+  void requery_last_null() {
+    if (!cfg_ok || sc.cfg.codec != CODEC_LDPC || last_null < 0 || cx.stop) return;
+    int v = 0;
+    int s2 = call([&] { return sh_get_last_null(ses, &v); });
+    cx.counters["lastnull_requeried"]++;
+    if (s2 != ST_OK) { cx.fail(O_LASTNULL, "ctrl_query_failed", "IS_LAST_SYMBOL_NULL query on a configured session returned " + std::to_string(s2)); return; }
+    if ((v ? 1 : 0) != last_null)
+      cx.fail(O_LASTNULL, "answer_changed_during_session", "IS_LAST_SYMBOL_NULL was " + std::to_string(last_null) + " after configuration and is " + std::to_string(v ? 1 : 0) + " after " + std::to_string(ndistinct) + " submitted symbols");
+    else if (ndistinct > 0) cx.counters["lastnull_requeried_after_submissions"]++;
+  }
+
   void step_query(uint32_t flag, bool final_q = false) {
     if (flag & 4) { query_limits(); if (!(flag & 3)) return; }
+    requery_last_null();
     if (!dec_ready()) { cx.skipped_steps++; return; }
     int c = -1;
     if (flag & 1) {
@@ -866,6 +880,7 @@ struct Sess {
       if (!ever_complete && ndistinct > 0) cx.features |= F_MIDDECODE_REL | F_EARLY_REL;
     }
     if (!cfg_ok) cx.features |= F_UNCONF_REL;
+    if (!from_dtor) requery_last_null();
     if (dir & 1) { for (uint32_t i = k; i < n; i++) if (!enc_built[i]) { cx.features |= F_EARLY_REL; break; } }
     if (dir == 3) cx.counters["mixed_direction_sessions"]++;
     if (!from_dtor) check_app_memory("pre-release", true);
